@@ -114,8 +114,49 @@ def tlc_model(module, cfg, wd, workers=12, timeout=1800, simulate=None, extra=""
     return res
 
 
+CHUNK_LINES = 120000
+_SPLIT_OK = ('"op":"reset"', '"op":"vreset"', '"op":"fmsg"', '"op":"filter"', '"op":"enc"', '"op":"rt"',
+             '"op":"mt"', '"op":"mt_from"', '"op":"ign"', '"op":"fz"', '"op":"tot"')
+
+
 def tlc_trace(module, cfg, trace, wd, timeout=1800, heap="6g"):
-    """Validate a recorded trace file. Returns (bad list [(prop, line, tr)], consumed, total, out)."""
+    """Validate a recorded trace file (in chunks cut at trace boundaries when it is large, so that
+    TLC never has to hold more than ~120k lines). Returns (bad, consumed, total, out); line numbers
+    in `bad` refer to the whole file."""
+    with open(trace) as f:
+        nlines = sum(1 for _ in f)
+    if nlines <= CHUNK_LINES:
+        return _tlc_trace_one(module, cfg, trace, wd, timeout, heap)
+    bad, consumed, total, outs = [], 0, 0, []
+    part, start, count, k = None, 0, 0, 0
+    def flush():
+        nonlocal bad, consumed, total, part, k
+        if part is None:
+            return
+        part.close()
+        b, c, t, o = _tlc_trace_one(module, cfg, part.name, wd, timeout, heap)
+        bad += [(p, line + start, tr, info) for (p, line, tr, info) in b]
+        consumed += c
+        total += t
+        outs.append(o[-2000:])
+        os.remove(part.name)
+        part = None
+    with open(trace) as f:
+        for i, line in enumerate(f):
+            if part is not None and count >= CHUNK_LINES and any(m in line[:400] or m.replace('":"', '": "') in line[:400]
+                                                               for m in _SPLIT_OK):
+                flush()
+            if part is None:
+                k += 1
+                part = open(trace + ".part%d" % k, "w")
+                start, count = i, 0
+            part.write(line)
+            count += 1
+    flush()
+    return bad, consumed, total, "\n".join(outs)
+
+
+def _tlc_trace_one(module, cfg, trace, wd, timeout=1800, heap="6g"):
     meta = os.path.join(wd, "meta-trace")
     cmd = ("timeout %d tlc -workers 1 -metadir %s -cleanup -noGenerateSpecTE -config %s %s"
            % (timeout, meta, os.path.join(SPEC, cfg), os.path.join(SPEC, module)))
